@@ -547,6 +547,7 @@ func runC01Deep(r *Run, rng *Rng, replay string) {
 		}(i)
 	}
 	wg.Wait()
+	copyCodeDone := false
 	for i, spec := range specs {
 		res := results[i]
 		id := fmt.Sprintf("%s kernel=%s n=%d grid=%d seed=%d (replay: <harness> child c01deeprun %s %d %d %d %d)",
@@ -560,6 +561,11 @@ func runC01Deep(r *Run, rng *Rng, replay string) {
 		r.Count("deep-kernel-" + res.Name)
 		r.CountN("deep-code-bytes", len(res.Code))
 		r.Case(c01CaseLine(res), hex.EncodeToString(res.Out))
+		if spec.Kind == "copy" && !copyCodeDone {
+			// the bytes the real loader extracted from amd/driver/memcopy.hsaco vs the literal the proofs are about
+			copyCodeDone = true
+			r.Case("c01 copycode", hex.EncodeToString(res.Code))
+		}
 		in, out0 := res.Regions[0].Data, res.Regions[1].Data
 		if spec.Kind == "copy" {
 			n := spec.N
